@@ -134,6 +134,41 @@ if len(rp) < 8 or any("*(size_t)pitch]" not in x for x in rp if "row_pointer[hei
 if re.search(r"&buf\[[^\]]*\*pitch\]", mp + ntj):
     die("a row address is computed as &buf[row * pitch] without the size_t cast")
 
+# RGB565 converters (model/Extent565.v): six functions, same store structure; is num_cols set per row?
+c565 = open(repo + "/src/jdcol565.c").read()
+funcs = re.findall(r"\n(\w+_rgb565D?_convert_internal)\(j_decompress_ptr cinfo(.*?)\n}\n", c565, re.S)
+if len(funcs) != 6:
+    die("jdcol565.c: expected the six *_rgb565[D]_convert_internal functions, found %d" % len(funcs))
+per_row = []
+for name, body in funcs:
+    b = norm(body)
+    for n in ("if(PACK_NEED_ALIGNMENT(outptr)){", "outptr+=2;num_cols--;}", "for(col=0;col<(num_cols>>1);col++){",
+              "WRITE_TWO_ALIGNED_PIXELS(outptr,rgb);outptr+=4;}", "if(num_cols&1){", "JDIMENSIONnum_cols"):
+        if n not in b:
+            die("jdcol565.c: %s: statement the model transcribes is gone: %s" % (name, n))
+    loop = b[b.index("while(--num_rows>=0){"):]
+    per_row.append("num_cols=cinfo->output_width;" in loop[:loop.index("if(PACK_NEED_ALIGNMENT(outptr)){")])
+if len(set(per_row)) != 1:
+    die("jdcol565.c: the six converters differ in where num_cols is initialised")
+jdc = norm(open(repo + "/src/jdcolor.c").read())
+if "#definePACK_NEED_ALIGNMENT(ptr)(((size_t)(ptr))&3)" not in jdc or "#defineWRITE_TWO_ALIGNED_PIXELS(addr,pixels)((*(int*)(addr))=pixels)" not in jdc:
+    die("jdcolor.c: PACK_NEED_ALIGNMENT / WRITE_TWO_ALIGNED_PIXELS changed")
+# re-packing instruction sequences whose positional effect proofs/ExtentShuffleProofs.v computes
+def asm_norm(path):
+    return [re.sub(r"\s+", " ", l.split(";")[0].strip()) for l in open(repo + "/simd/x86_64/" + path)]
+for path, seqs in (("jcsample-avx2.asm", [["vpackuswb ymm0, ymm0, ymm1", "vpermq ymm0, ymm0, 0xd8"], ["vpackuswb ymm0, ymm0, ymm2", "vpermq ymm0, ymm0, 0xd8"]]),
+                   ("jdsample-avx2.asm", [["vperm2i128 ymm2, ymm0, ymm1, 0x20", "vpalignr ymm2, ymm1, ymm2, 15"],
+                                          ["vperm2i128 ymm4, ymm0, ymm1, 0x03", "vpalignr ymm3, ymm4, ymm1, 1"],
+                                          ["vpunpckhbw ymm4, ymm1, ymm0", "vpunpcklbw ymm5, ymm1, ymm0", "vperm2i128 ymm1, ymm5, ymm4, 0x20", "vperm2i128 ymm4, ymm5, ymm4, 0x31"],
+                                          ["vperm2i128 ymm0, ymm8, ymm7, 0x03", "vpalignr ymm0, ymm0, ymm7, 2"],
+                                          ["vperm2i128 ymm1, ymm8, ymm7, 0x20", "vpalignr ymm1, ymm7, ymm1, 14"]]),
+                   ("jcsample-sse2.asm", [["packuswb xmm0, xmm1"], ["packuswb xmm0, xmm2"]]),
+                   ("jdsample-sse2.asm", [["pslldq xmm2, 1", "psrldq xmm3, 1"], ["punpcklbw xmm1, xmm0", "punpckhbw xmm4, xmm0"]])):
+    lines = [l for l in asm_norm(path) if l]
+    for sq in seqs:
+        if not any(lines[i:i + len(sq)] == sq for i in range(len(lines))):
+            die("%s: re-packing sequence changed: %s" % (path, " ; ".join(sq)))
+
 h = open(repo + "/src/turbojpeg.h").read()
 
 
@@ -165,6 +200,7 @@ print("Definition dec_chk_width : bool := %s." % ("true" if chk_width else "fals
 print("Definition dec_chk_bottom : bool := %s." % ("true" if chk_bottom else "false"))
 print("(* size_t on the LP64 target the harness is built for *)")
 print("Definition rowptr_mul_bits : Z := 64.")
+print("Definition rgb565_reset_per_row : bool := %s." % ("true" if per_row[0] else "false"))
 print("Definition tmp_rows_cover_pw : bool := %s." % ("true" if wide else "false"))
 print("Definition tj_mcu_width : list Z := %s." % zl(mw))
 print("Definition tj_mcu_height : list Z := %s." % zl(mh))
